@@ -5,14 +5,67 @@ of mechanisms already explored by earlier rounds (from seeded/*/meta.json 'break
 import sys, json, glob, os, subprocess
 suffix = sys.argv[1]
 props = {json.loads(l)['id']: json.loads(l) for l in open('/verif/properties.jsonl')}
-tmpl = open('/tmp/mut/C03b.prompt.txt').read() if os.path.exists('/tmp/mut/C03b.prompt.txt') else None
-head, rest = tmpl.split('THE PROPERTY', 1)
-head = head.replace('never use pkill/killall by name.', 'never use pkill/killall by name, and never use `git stash` (the stash is shared between all worktrees of the repository; use `git diff > file` / `git apply -R` instead).')
-task = 'TASK' + rest.split('\nTASK', 1)[1]
+
+HEAD = """You are helping to evaluate verification machinery for the Go library cloudwego/netpoll (an epoll/kqueue reactor networking
+library: pollers, a connection life-cycle state machine, a zero-copy reference-counted LinkBuffer). You play the part of a
+developer who makes a realistic but WRONG change to the library.
+
+WORKSPACE RULES
+- Your workspace is the git worktree /tmp/mut/WID (a checkout of the library). Work ONLY there. Never touch /repo or /verif,
+  never read anything under /verif, never commit anything, never create other worktrees.
+- Every shell call needs: export GOFLAGS=-mod=mod GOPROXY=off GOSUMDB=off GOTOOLCHAIN=local   (the sandbox has no network).
+- The existing test suite: `go test -vet=off -count=1 -timeout 6m ./...` in the workspace (about 1-2 minutes). Some tests are
+  load-sensitive (TestGracefulExit, TestReadDeadline/TestWriteDeadline, TestLargeBufferWrite, TestParallelShortConnection,
+  TestShardQueue fail now and then on the UNCHANGED tree when the machine is busy - other agents are running suites at the
+  same time). If a test fails, re-run it alone (`go test -vet=off -count=3 -run '^TestName$' .`) with and without your change
+  before you conclude anything.
+- Other agents work in sibling directories at the same time: never use pkill/killall by name, and never use `git stash` (the
+  stash is shared between all worktrees of the repository; use `git diff > file` / `git apply -R` instead).
+- Put your results in /tmp/mut/WID/out/ (exists). Keep the workspace's tracked files UNCHANGED at the end (`git checkout -- .`);
+  your changes live only as diff files in out/.
+
+"""
+
+TASK = """TASK
+Produce THREE different changes ("mutants") m1, m2, m3 to the library's non-test source, each of which
+ (a) compiles (`go build ./... && go vet ./...`),
+ (b) passes the existing test suite, unedited (allowing for the load-sensitive tests named above),
+ (c) BREAKS the property above - for some input, schedule, fault point or history the behaviour the property promises is lost,
+ (d) looks like something a developer could plausibly write: an optimisation, a refactoring, a simplification, a "fix" of
+     something else, a reordering - not sabotage, and small (a few lines, at most ~30),
+ (e) needs something SPECIFIC to manifest: a particular interleaving, a fault at a particular point, a multi-step sequence of
+     operations, an unusual input, or two cooperating sites that each look fine alone. Not something ordinary use exposes at once.
+The three should attack DIFFERENT clauses / mechanisms / functions of the property, and differ from the "already explored" list.
+
+For each mutant write in /tmp/mut/WID/out/:
+ - mN.diff            `git diff` of the change against the workspace HEAD (must apply with `git apply` on a clean checkout)
+ - mN_demo_test.go    a Go test in the package of the code (package netpoll, or package mux for mux/), with ONE test function
+                      named TestMutantDemo<Something>, that PASSES on the unchanged library and FAILS (or panics / deadlocks into
+                      its own timeout of a few seconds) with the mutant applied. It must be deterministic enough to fail at least
+                      9 times out of 10 with the mutant and pass every time without it. Use loopback sockets / socketpairs /
+                      in-package access to unexported identifiers freely. The test file is copied next to the library's own test
+                      files, so it may use their helpers, but must not redefine names they define.
+ - mN_window.diff     OPTIONAL: if the failing schedule cannot be forced from a test, a tiny behaviour-preserving hook (a
+                      package-level `var hookX func()` that is nil by default and called as `if hookX != nil { hookX() }` at
+                      the window) as a diff that applies both to the unchanged tree and on top of mN.diff. The demo may set it.
+ - mN.txt             3-10 lines: what the change is, which clause of the property it breaks, what is needed for it to
+                      manifest, and how you confirmed (a)-(c) (commands and outcomes).
+Confirm everything yourself before writing it down: demo passes without the change (run it 3 times), suite passes with the
+change, demo fails with the change (run it 3 times). Undo a change with `git checkout -- .` before starting the next one.
+
+ALSO: while reading the code, if you notice that the UNCHANGED library itself already violates the property for some specific
+input/schedule/history (a genuine defect), describe it in /tmp/mut/WID/out/observations.txt with the exact sequence, and if
+you can, a test that fails on the unchanged tree (out/obs_N_test.go). This is optional and secondary to the three mutants.
+
+Finish with a short summary listing, per mutant, the files written and the confirmation outcomes. If you could produce fewer
+than three that satisfy (a)-(e), say so honestly rather than padding with one that the suite catches.
+"""
+
 for pid in sys.argv[2:]:
     p = props[pid]
     wid = pid + suffix
     wt = f'/tmp/mut/{wid}'
+    os.makedirs('/tmp/mut', exist_ok=True)
     if not os.path.isdir(wt):
         subprocess.run(['git', '-C', '/repo', 'worktree', 'add', '--detach', wt, 'HEAD'], check=True, stdout=subprocess.DEVNULL, stderr=subprocess.DEVNULL)
         os.makedirs(f'{wt}/out', exist_ok=True)
@@ -31,6 +84,6 @@ for pid in sys.argv[2:]:
     explored = []
     for mf in sorted(glob.glob(f'/verif/seeded/{pid}-*/meta.json')):
         explored.append(' - ' + json.load(open(mf))['breaks'])
-    body = head.replace('C03b', wid) + 'THE PROPERTY (it holds for the library as checked out; `git log` shows a few recent "fix:" commits - do NOT simply revert those, find other ways to break the property):\n\n' + '\n'.join(lines) + '\n\n\nALREADY EXPLORED - do NOT reuse these mechanisms (they are known; find genuinely different ways, in other functions or other clauses of the property where possible):\n' + '\n'.join(explored) + '\n\n' + task.replace('C03b', wid)
+    body = HEAD.replace('WID', wid) + 'THE PROPERTY (it holds for the library as checked out; `git log` shows a few recent "fix:" commits - do NOT simply revert those, find other ways to break the property):\n\n' + '\n'.join(lines) + '\n\n\nALREADY EXPLORED - do NOT reuse these mechanisms (they are known; find genuinely different ways, in other functions or other clauses of the property where possible):\n' + '\n'.join(explored) + '\n\n' + TASK.replace('WID', wid)
     open(f'/tmp/mut/{wid}.prompt.txt', 'w').write(body)
     print(wid, len(explored), 'explored')
